@@ -684,14 +684,10 @@ pub fn bucket(n: u64) -> &'static str {
 
 /// Check the file image against the appended batches: layout, offsets, entries.
 /// Returns the groups when everything holds.
-/// Suspected finding C12-C: `LogBuilder::append` adds the batch's setsum to the log's before
-/// `_append` can refuse the batch (roll-over size / table full), so `seal()` returns a setsum that
-/// includes batches that are not in the log.  Trigger: an append was refused with table-full.  The
-/// seal setsum must then be the sum of the log's entries or that sum plus exactly the refused
-/// batches (not judged further unless strict).
-pub const C12_C: &str = "C12-C";
-
-pub fn check_whole(opts: &LogOptions, bytes: &[u8], built: &Built, strict: bool, o: &mut Outcome) -> Option<Vec<Group>> {
+/// (Finding C12-C, repaired in /repo b0958d0: `LogBuilder::append` added the batch's setsum before
+/// `_append` could refuse the batch by the roll-over size; a refused append must leave the seal
+/// setsum alone.  regressions/C12/C12-C-*.json)
+pub fn check_whole(opts: &LogOptions, bytes: &[u8], built: &Built, o: &mut Outcome) -> Option<Vec<Group>> {
     let total: usize = built.batches.iter().map(|b| b.entries.len()).sum();
     let mut exp = built.batches.iter().flat_map(|b| b.entries.iter());
     match read_compare_with(opts, bytes, &mut exp) {
@@ -719,10 +715,7 @@ pub fn check_whole(opts: &LogOptions, bytes: &[u8], built: &Built, strict: bool,
         for r in built.refused.iter() {
             with_refused += setsum_of(r);
         }
-        if !built.refused.is_empty() && with_refused == built.setsum && !strict {
-            o.excluded.push(C12_C.to_string());
-            o.label("rollover:refused-append-in-seal-setsum(not-judged,C12-C)");
-        } else if !built.refused.is_empty() && with_refused == built.setsum {
+        if !built.refused.is_empty() && with_refused == built.setsum {
             o.fail(
                 "refused-append-still-in-setsum",
                 format!(
@@ -858,7 +851,7 @@ impl Property for RoundTrip {
         if rollover.is_some() {
             o.label("opts:rollover-size-set");
         }
-        let groups = check_whole(&opts, &bytes, &built, ctx.strict, &mut o);
+        let groups = check_whole(&opts, &bytes, &built, &mut o);
         if let Some((dir, path)) = path {
             if !o.failed() {
                 o.label("via-file");
@@ -983,7 +976,7 @@ impl Property for Truncation {
         let mut bytes: Vec<u8> = Vec::new();
         let log = LogBuilder::from_write(opts.clone(), &mut bytes).expect("from_write");
         let Some((built, _)) = build(log, &c.steps, c.seed as u64, &mut o) else { return o };
-        let Some(groups) = check_whole(&opts, &bytes, &built, ctx.strict, &mut o) else { return o };
+        let Some(groups) = check_whole(&opts, &bytes, &built, &mut o) else { return o };
         let frames = parse_frames(&bytes).unwrap_or_default();
         let splits = layout_labels(&groups, &mut o);
         let len = bytes.len() as u64;
